@@ -217,7 +217,8 @@ Definition vsum (vs : list vec) : vec := fold_left (vadd O) vs (vzero O).
 
 (* ---------------------------------------------------------------- operations *)
 Inductive op :=
-| ONew (pat : list sinit) (e f c : list (list Z)) (cn : corners) (k : Z)      (* caller arrays, producers outside the anchors *)
+| ONew (prep : bool) (pat : list sinit) (e f c : list (list Z)) (cn : corners) (k : Z)
+    (* caller arrays, producers outside the anchors; prep: the result is built through RawMeshData.prepare() *)
 | OFromArrays (a : nat) (e f c : list (list Z)) (cn : corners) (k : Z)
 | ORing (N nc : Z) (open : bool) (vs : list vec) (e f : list (list Z)) (cn : corners)
 | OCopy (m : nat) (attr : bool)
@@ -240,9 +241,10 @@ Definition retarget (w : world) (i : nat) (o : obj) (r : mem * list cell) : worl
 Definition step (w : world) (o : op) : option world :=
   let m := wmem w in
   match o with
-  | ONew pat e f c cn k =>
+  | ONew prep pat e f c cn k =>
       match build_ext (wobjs w) m pat with
-      | Some (m1, cs) => Some (push w m1 (mkobj cs e f c cn k))
+      | Some (m1, cs) => let '(m2, cs2) := if prep then take prepare_vertex_mode m1 cs else (m1, cs) in
+                         Some (push w m2 (mkobj cs2 e f c cn k))
       | None => None
       end
   | OFromArrays a e f c cn k =>
